@@ -57,6 +57,15 @@ func VerifHSSessionWithTicket(s *ClientSessionState, ticket []byte) *ClientSessi
 	return &c
 }
 
+// VerifHSSessionWithSuite returns a copy of s whose recorded cipher suite is `suite` (the ticket and
+// the secrets are unchanged): a client cache entry that lets the client present a ticket although
+// it no longer offers the suite the ticket was issued for.
+func VerifHSSessionWithSuite(s *ClientSessionState, suite uint16) *ClientSessionState {
+	c := *s
+	c.cipherSuite = suite
+	return &c
+}
+
 // VerifHSSetReadHook installs f to be called by readHandshake with the raw bytes (4-byte header
 // included) of every handshake message, after record decryption and before it is parsed.
 func VerifHSSetReadHook(f func(c *Conn, isClient bool, msg []byte)) {
